@@ -80,6 +80,17 @@ Theorem C14_cancel_keeps_table : forall s w,
 Proof. exact cancel_keeps_table. Qed.
 Print Assumptions C14_cancel_keeps_table.
 
+(* When the session ends - clean EOF, a frame too short to carry an id, or the stream failing with
+   ConnectionLost / DisconnectError / a reset - in any live state with any number of requests outstanding:
+   the table is drained, and every waiter that was not cancelled is failed (with C14_route: exactly once). *)
+Theorem C14_session_end : forall s e,
+  is_end e = true -> c_open s = true ->
+  c_reqs (fst (c_step s e)) = [] /\ c_open (fst (c_step s e)) = false /\
+  forall id w, In (id, w) (c_reqs s) -> memz w (c_cancelled s) = false ->
+               exists x, In (OFail w x) (snd (c_step s e)).
+Proof. exact session_end_drains. Qed.
+Print Assumptions C14_session_end.
+
 (* ---- client: reply type ------------------------------------------------------------------- *)
 
 (* A caller only ever gets a value from a reply whose type is the one its request calls for; a STATUS
